@@ -135,6 +135,36 @@ def run(chk):
                 if cnl["steps"] != 2:
                     chk.fail("no iteration limit, threshold above every relative change: expected to stop at iteration 2, stopped at %d" % cnl["steps"],
                              dict(ctx, threshold=th, cvs=ctraj["cvs"]))
+    # ---- a raised mean_var_update_threshold (the count floor): a light component whose count is above the threshold is NOT floored -
+    #      every iteration is still the exact M-step (n/T, sum_px/n) and the likelihood does not drop
+    for j in range(4 if chk.tier == "quick" else 40):
+        sw = SWITCHES[j % 8]
+        w, mu, var, s, X = gt.gen_training(r, C=2, N=25, scale="unit")
+        C, D = mu.shape
+        thr_n = 0.05
+        cfgt = dict(w=w, mu=mu, var=var, thr=None, sw=sw, eps=thr_n, cap=1, cthr=None)
+        mt, _ = gt.build_machine(cfgt)
+        prev = float(np.mean(mt.log_likelihood(X)))
+        for k in range(3):
+            st = mt.acc_stats(X)
+            nn = np.asarray(st.n, dtype=float)
+            if np.any(nn < thr_n):
+                break
+            bw, bm, bv = np.array(mt.weights), np.array(mt.means), np.array(mt.variances)
+            mt.fit(X)
+            cur = float(np.mean(mt.log_likelihood(X)))
+            want_w = nn / float(st.t) if sw[2] else bw
+            want_mu = np.asarray(st.sum_px) / nn[:, None] if sw[0] else bm
+            chk.count(1, key=("raised-count-threshold", sw))
+            if not (np.allclose(mt.weights, want_w, rtol=1e-10) and np.allclose(mt.means, want_mu, rtol=1e-10, atol=1e-12)):
+                chk.fail("with mean_var_update_threshold = %g and every count above it (smallest %.3g of %d frames) the M-step is not n/T, sum_px/n" % (thr_n, nn.min(), int(st.t)),
+                         {"X": hexlist(X), "shape": [C, D], "w": hexlist(w), "mu": hexlist(mu), "var": hexlist(var), "switches(means,vars,weights)": list(sw), "threshold": thr_n})
+                break
+            if not np.any(np.asarray(mt.variances) <= gt.thr_matrix(mt)) and not cur >= prev - 1e-9 * max(1.0, abs(prev)):
+                chk.fail("with mean_var_update_threshold = %g (no count below it) EM iteration %d lowers the average log-likelihood %.12g -> %.12g" % (thr_n, k + 1, prev, cur),
+                         {"X": hexlist(X), "shape": [C, D], "w": hexlist(w), "mu": hexlist(mu), "var": hexlist(var), "switches(means,vars,weights)": list(sw), "threshold": thr_n})
+                break
+            prev = cur
     # ---- Dask blocks on isolated (serialising) workers, training ended by the iteration cap: the trained parameters come back to the caller
     for j in range(3 if chk.tier == "quick" else 24):
         w, mu, var, s, X = gt.gen_training(r, C=2, N=12, scale="unit")
